@@ -920,7 +920,8 @@ pub fn gen_invalid_record(rng: &mut Rng, hdr: &HeaderDesc, o: &RecOpts, kind: In
         Invalid::NameStar => r.name = Some(b"*".to_vec()),
         Invalid::RefIdOutOfRange | Invalid::MateRefIdOutOfRange => {
             let n = hdr.sq.len();
-            let id = *rng.pick(&[n, n + 1, n + 255, (1usize << 31) - 1, 1 << 31, (1 << 32) + rng.usize_below(n.max(1)), usize::MAX]);
+            let wrap = (1usize << 32) + rng.usize_below(n.max(1));
+            let id = *rng.pick(&[n, n + 1, n + 255, (1usize << 31) - 1, 1 << 31, wrap, usize::MAX]);
             if kind == Invalid::RefIdOutOfRange {
                 r.ref_id = Some(id);
                 if r.pos.is_none() {
@@ -939,7 +940,8 @@ pub fn gen_invalid_record(rng: &mut Rng, hdr: &HeaderDesc, o: &RecOpts, kind: In
             } else {
                 if r.seq.len() < 2 {
                     r.cigar.clear();
-                    r.seq = gen_seq(rng, o.level, rng.urange(2, 20));
+                    let n = rng.urange(2, 20);
+                    r.seq = gen_seq(rng, o.level, n);
                 }
                 let n = r.seq.len();
                 let m = *rng.pick(&[n - 1, n + 1, n + 256, 2 * n, 1]);
@@ -950,7 +952,8 @@ pub fn gen_invalid_record(rng: &mut Rng, hdr: &HeaderDesc, o: &RecOpts, kind: In
         Invalid::QualTooLarge => {
             if r.seq.is_empty() {
                 r.cigar.clear();
-                r.seq = gen_seq(rng, o.level, rng.urange(1, 20));
+                let n = rng.urange(1, 20);
+                r.seq = gen_seq(rng, o.level, n);
             }
             let mut q = vec![30u8; r.seq.len()];
             let at = rng.usize_below(q.len());
@@ -1253,7 +1256,8 @@ pub fn coordinate_sorted_set(rng: &mut Rng, hdr: &HeaderDesc, n: usize, o: &RecO
                 recs.push(mk(rng, id, w, long, ln, &o));
                 for _ in 1..k {
                     let p = w + rng.range(1, 16_000) as u64;
-                    recs.push(mk(rng, id, p, rng.range(1, 150) as u64, ln, &o));
+                    let sp = rng.range(1, 150) as u64;
+                    recs.push(mk(rng, id, p, sp, ln, &o));
                 }
                 // and one that starts just before the long one ends
                 if budget > k {
@@ -1267,13 +1271,16 @@ pub fn coordinate_sorted_set(rng: &mut Rng, hdr: &HeaderDesc, n: usize, o: &RecO
                 let w = rng.range(1, ln as i64) as u64;
                 let k = rng.urange(5, 40).min(budget);
                 for _ in 0..k {
-                    recs.push(mk(rng, id, w + rng.below(300), rng.range(1, 100) as u64, ln, &o));
+                    let p = w + rng.below(300);
+                    let sp = rng.range(1, 100) as u64;
+                    recs.push(mk(rng, id, p, sp, ln, &o));
                 }
                 budget -= k;
             }
             _ => {
                 let p = rng.range(1, ln as i64) as u64;
-                recs.push(mk(rng, id, p, rng.range(1, 300) as u64, ln, &o));
+                let sp = rng.range(1, 300) as u64;
+                recs.push(mk(rng, id, p, sp, ln, &o));
                 budget -= 1;
             }
         }
